@@ -430,6 +430,11 @@ def run(ctx):
         kind = ('licensed', 'random', 'exotic')[i % 3]
         one_tree(make_tree(kind), kind)
 
+    # long sentences: AUTO lines beyond the usual I/O buffer sizes (8 KiB and more)
+    for _ in range(1 if ctx.quick else 6):
+        t = gen.rand_tree(rng, 'en', nleaves=rng.randint(200, 249), full_tokens=True)
+        one_tree(t, 'long')
+
     # tokens without 'word' (KeyError), tokens given as plain strings, unary chains on leaves, both defaults of pos
     for _ in range(20 if ctx.quick else 200):
         t = make_tree('random')
